@@ -94,8 +94,8 @@ func runConcurrentGets(c Case) (msg string, nontrivial bool) {
 	var steps []step
 	model := map[string]string{}
 	for i, m := range c.Muts {
-		if m.K == "init" {
-			m.K = "create" // (Init seeding is exercised by the sequential test)
+		if m.K == "init" || m.K == "createnew" {
+			m.K = "create" // (Init seeding and generated ids are exercised by the sequential test)
 		}
 		_, existed := model[m.ID]
 		from := f.conn.LogLen()
@@ -245,7 +245,7 @@ func runConcurrentWriters(c Case, writers int) (msg string, nontrivial bool) {
 				if owner[m.ID] != w {
 					continue
 				}
-				if m.K == "init" {
+				if m.K == "init" || m.K == "createnew" {
 					m.K = "create"
 				}
 				prev, existed := model[m.ID]
@@ -399,7 +399,7 @@ func TestPropFailedCommit(t *testing.T) {
 		exists := map[string]bool{}
 		conflicts := 0
 		for i, m := range c.Muts {
-			if m.K == "init" {
+			if m.K == "init" || m.K == "createnew" {
 				m.K = "create"
 			}
 			conflict := rapid.IntRange(0, 2).Draw(rt, "conflict") == 0 && (m.K == "create") != exists[m.ID]
